@@ -404,7 +404,7 @@ def run_multitask(case, ctx: Ctx):
                f"|{'interleaved' if inter else 'blocked'}|{'likbatch<=dist' if contained else 'likbatch>dist'}")
     ctx.label(f"mt.t={t}", f"mt.rank={rank}", f"mt.glob={glob}", f"mt.task={task}", f"mt.interleaved={inter}", f"mt.lik_batch={sh(Lb)}",
               f"dist_batch={sh(Db)}", f"cov={case['cov']['kind']}", f"n={n}", f"mt.broadcast={Lb != Db}", f"mt.likbatch_in_dist={contained}",
-              f"mt.cell=rank{rank}/t{t}/g{int(glob)}/k{int(task)}/i{int(inter)}")
+              f"mt.rank_vs_t={'0' if rank == 0 else ('full' if rank == t else 'low')}|{'glob' if glob else 'noglob'}|{'task' if task else 'notask'}")
     ctx.set_nontrivial((not inter) or (task and rank >= 1) or Lb != Db)
     with ctx.observing("construct"):
         lik = L.MultitaskGaussianLikelihood(num_tasks=t, rank=rank, batch_shape=torch.Size(Lb), has_global_noise=glob, has_task_noise=task)
@@ -827,17 +827,17 @@ SPEC = PropertySpec(
         "observation_nan_policy left at its default (C16 covers it)",
     ],
     subchecks=[
-        Subcheck("gaussian.noise", run_gaussian, strategy=gaussian_cases, quick=1500, thorough=25000, min_shard=60),
-        Subcheck("fixed.noise", run_fixed, strategy=fixed_cases, quick=2000, thorough=30000, min_shard=60),
+        Subcheck("gaussian.noise", run_gaussian, strategy=gaussian_cases, quick=1200, thorough=25000, min_shard=60),
+        Subcheck("fixed.noise", run_fixed, strategy=fixed_cases, quick=1600, thorough=30000, min_shard=60),
         Subcheck("fixed.cells_exhaustive", run_fixed, enumerate=enumerate_fixed,
                  exhaustive_note="FixedNoiseGaussianLikelihood: mode {stored, call-time, call-time with other n, size mismatch} x learn_additional_noise x "
                                  "every broadcastable tuple of batch shapes from {(),(1),(2),(3,2),(1,2),(3,1)} for fixed / learned / call-time noise and "
                                  "distribution (thorough: all; quick: a third of the call-time+learned block)"),
-        Subcheck("dirichlet.noise", run_dirichlet, strategy=dirichlet_cases, quick=600, thorough=8000, min_shard=60),
-        Subcheck("multitask.noise", run_multitask, strategy=multitask_cases, quick=2000, thorough=30000, min_shard=60),
+        Subcheck("dirichlet.noise", run_dirichlet, strategy=dirichlet_cases, quick=500, thorough=8000, min_shard=60),
+        Subcheck("multitask.noise", run_multitask, strategy=multitask_cases, quick=1600, thorough=30000, min_shard=60),
         Subcheck("multitask.cells_exhaustive", run_multitask, enumerate=enumerate_multitask,
                  exhaustive_note="MultitaskGaussianLikelihood: t in 1..3 x rank 0..t x (global, task) switches x interleaved in {T,F} x every broadcastable "
                                  "(likelihood batch, distribution batch) pair from {(),(1),(2),(3,2),(1,2),(3,1)}"),
-        Subcheck("list.routing", run_list, strategy=list_cases, quick=1200, thorough=15000, min_shard=60),
+        Subcheck("list.routing", run_list, strategy=list_cases, quick=1000, thorough=15000, min_shard=60),
     ],
 )
